@@ -134,12 +134,14 @@ fn parse_args(args: &[&str]) -> Result<ParsedInfo, Box<dyn Error>> {
         paths.push(args[i].to_string());
         i += 1;
     }
-    if i == paths_start {
+    let no_starting_point = i == paths_start;
+    if no_starting_point {
         paths.push(".".to_string());
     }
     let matcher = matchers::build_top_level_matcher(&args[i..], &mut config)?;
     if let Some(new_paths) = &config.new_paths {
-        if paths.len() == 1 && paths[0] == "." {
+        // (a "." that was given is an operand like any other)
+        if no_starting_point {
             paths = new_paths.to_vec();
         } else {
             return Err(From::from(format!(
